@@ -335,9 +335,9 @@ def shellPad (pos : List Nat) : List Int :=
 /-- single-language mode, one part: what `run_proofreader_options` assembles from the filter's
     result and the proofreader's matches — text and map padded, offsets unchanged -/
 theorem assemble_single (txt : Str) (pos : List Nat) (ms : List RawMatch) :
-    assemble [({ plain := txt, charmap := natMap pos }, ms)] =
+    assembleNB [({ plain := txt, charmap := natMap pos }, ms)] =
       { plainTot := txt ++ ['\n', '\n'], charmapTot := natMap pos ++ shellPad pos, hits := ms } := by
-  simp [assemble, assembleStep, shellPad]
+  simp [assembleNB, assembleStepNB, shellPad]
 
 theorem shellPad_mem (pos : List Nat) (h : pos ≠ []) : ∀ c ∈ shellPad pos, c ∈ natMap pos ∧ 0 ≤ c := by
   intro c hc
